@@ -1667,4 +1667,6 @@ func genC15(r *rng, tier string, emit func(string)) {
 			}
 		}
 	}
+	// handshake message codecs (Model.TLSMessages): harness/c15codec.go
+	c15cGen(r, tier, emit)
 }
